@@ -445,7 +445,7 @@ Definition step (i : cinstr A) (s : gstack) : result gstack :=
   | IPush v, _ => Ok (v :: s)
   | IPushT t lit, _ => match read t lit with Some v => Ok (v :: s) | None => Reject end
   | IUnpack t, GPacked _ m :: s' =>
-      Ok (match read t m with Some v => GSome d v | None => GNone d t end :: s')
+      Ok (match read t m with Some v => GSome d v | None => GNone d (anon t) end :: s')   (* OptionType.none strips the root (fix #53) *)
   | IGet n, GPair a x y :: s' =>
       match access_comb n (GPair a x y) with Some r => Ok (r :: s') | None => Reject end
   | IUpdate n, e :: GPair a x y :: s' =>
@@ -466,7 +466,7 @@ Definition step (i : cinstr A) (s : gstack) : result gstack :=
   | ISwap, a :: b :: s' => Ok (b :: a :: s')
   | IDrop, _ :: s' => Ok s'
   | ISome, v :: s' => Ok (GSome d v :: s')
-  | INone t, _ => Ok (GNone d t :: s)
+  | INone t, _ => Ok (GNone d (anon t) :: s)
   | ILeft t, v :: s' => Ok (GLeft d v t :: s')
   | IRight t, v :: s' => Ok (GRight d t v :: s')
   | IUnit, _ => Ok (GUnit d :: s)
